@@ -57,6 +57,12 @@ Mix(m, h) == << Cr("create_persistent", m, h, "V", "int", "a"), Wr(h, 0, 1),
                 Cr("create_shared", m, h + 1, "V", "int", "b"),
                 Cr("create_private", m, h + 2, "HE", "bool", "") >>
 
+(* topology of one tetrahedron without positions; a single triangle *)
+TetT(m) == << AddV(m), AddV(m), AddV(m), AddV(m),
+              FaceV(m, <<0, 2, 1>>), FaceV(m, <<0, 1, 3>>), FaceV(m, <<1, 2, 3>>), FaceV(m, <<0, 3, 2>>),
+              KC("add_cell", m, 0, 0, <<0, 2, 4, 6>>, TRUE) >>
+Tri(m)  == << AddV(m), AddV(m), AddV(m), FaceV(m, <<0, 1, 2>>) >>
+
 SeedScript(k) ==
   CASE k = 0  -> << MNew(1, "poly") >>
     [] k = 1  -> << MNew(1, "poly"), AddV(1), Cr("create_persistent", 1, 1, "V", "int", "a"),
@@ -106,6 +112,23 @@ SeedScript(k) ==
                     MNew(3, "thex"), AddV(3), Cr("create_persistent", 3, 4, "V", "int", "a") >>
     [] k = 7  -> << MNew(1, "tpoly"), AddV(1), Cr("create_persistent", 1, 1, "V", "int", "a"),
                     Cr("create_shared", 1, 2, "V", "int", "b"), MNew(2, "thex"), Cr("create_shared", 2, 3, "V", "int", "a") >>
+    (* ---- handles of EVERY entity kind held on the target (and the source) across an assignment ---- *)
+    [] k = 20 -> << MNew(1, "poly") >> \o Tet(1) \o << MNew(2, "poly") >> \o Seg(2) \o
+                 << Cr("create_persistent", 2, 1, "HF", "int", "a"), Cr("create_shared", 2, 2, "F", "int", "b"),
+                    Cr("create_private", 2, 3, "C", "bool", ""), Cr("create_persistent", 2, 4, "E", "bool", "a") >>
+    [] k = 21 -> << MNew(1, "poly") >> \o Tri(1) \o << MNew(2, "tet") >> \o Tet(2) \o
+                 << Cr("create_persistent", 2, 1, "HF", "bool", "a"), Wr(1, 7, 1), Cr("create_shared", 2, 2, "HE", "int", "a"),
+                    Cr("create_private", 2, 3, "HF", "int", "b"), Cr("create_persistent", 2, 4, "M", "int", "b") >>
+    [] k = 22 -> << MNew(1, "tet") >> \o Tet(1) \o
+                 << Cr("create_persistent", 1, 1, "HF", "int", "a"), Wr(1, 7, 1), Cr("create_shared", 1, 2, "F", "int", "b"),
+                    MNew(2, "hex"), AddV(2), Cr("create_private", 2, 3, "HF", "int", ""), Cr("create_shared", 2, 4, "C", "int", "a") >>
+    [] k = 23 -> << MNew(1, "poly") >> \o Tet(1) \o << KC("delete_face", 1, 0, 0, <<>>, FALSE), MNew(2, "poly") >> \o Tri(2) \o
+                 << Cr("create_private", 2, 1, "V", "int", "a"), Cr("create_shared", 2, 2, "E", "int", "a"),
+                    Cr("create_persistent", 2, 3, "F", "bool", "a"), Wr(3, 0, 1), Cr("create_shared", 2, 4, "HF", "int", "b"), Wr(4, 1, 1) >>
+    [] k = 24 -> << MNew(1, "tpoly") >> \o TetT(1) \o << Cr("create_persistent", 1, 1, "HF", "int", "a"), Wr(1, 7, 1),
+                    MNew(2, "tpoly") >> \o Tri(2) \o
+                 << Cr("create_persistent", 2, 2, "HF", "int", "b"), Cr("create_private", 2, 3, "C", "int", ""),
+                    Cr("create_shared", 2, 4, "F", "bool", "a") >>
     [] k = 16 -> << MNew(1, "poly") >> \o Seg(1) \o Mix(1, 1) \o << MCopy(2, 1), Cr("get_property", 2, 4, "V", "int", "a") >>
 
 Norm(x) == [x EXCEPT !.ret = "ok", !.busy = {}]
@@ -141,6 +164,7 @@ CallsOf(x, op) ==
     [] op = "clear_all_props" -> {Call(op, m, 0, FALSE, <<>>, "") : m \in Alive(x)}
     [] op = "clear" -> {Call(op, m, 0, f, <<>>, "") : <<m, f>> \in Alive(x) \X BOOLEAN}
     [] op = "write" -> {Wr(h, i, 1) : <<h, i>> \in {y \in Bound(x) \X (0 .. 24) : y[2] \in Ends(Len(x.sto[x.slot[y[1]]].vals))}}
+    [] op = "touch" -> {Call(op, 0, h, FALSE, <<>>, "") : h \in Bound(x)}
     [] op = "set_vertex" -> {SetV(m, v, 5) : <<m, v>> \in {y \in Geo(x) \X (0 .. 12) : y[2] \in Ends(x.mesh[y[1]].kern.nv)}}
     [] op = "persist_pos" -> {Call(op, m, 0, f, <<>>, "") : <<m, f>> \in Geo(x) \X BOOLEAN}
     [] op = "pos_handle" -> {Call(op, m, h, FALSE, <<>>, "") : <<m, h>> \in Geo(x) \X Targets1(x)}
